@@ -101,3 +101,18 @@ Print Assumptions C04_reach_mutation.
 Print Assumptions C04_langid_canonical.
 Print Assumptions C04_reach_parse.
 Print Assumptions C04_canonicalize.
+
+(* the views C04 and C05 have of a transcript (the printed string / re-parse verdict of every step of a history, the
+   printed string of a `langid` / `li_from_parts` answer) find exactly the fields the transcript was built from, and
+   the model's own answer passes them (proofs/OracleSoundViews.v) *)
+From UL Require Oracle OracleSound OracleSoundViews.
+Theorem C04_views_sound : forall prop op args r,
+  Oracle.spec_for_property prop op args (Oracle.oracle_model op args) = Some r -> OracleSound.passes r.
+Proof. exact OracleSoundViews.views_sound. Qed.
+Print Assumptions C04_views_sound.
+Theorem C04_history_steps_canonical : forall args,
+  Oracle.starts_with (bs "BAD"%string) (Oracle.model_hist args) = false ->
+  forallb (fun st => Oracle.canon_locale_text (Oracle.step_tostring st)) (Oracle.hist_steps (Oracle.model_hist args)) = true
+  /\ forallb (fun st => beqb (Oracle.step_reparse st) (bs "same"%string)) (Oracle.hist_steps (Oracle.model_hist args)) = true.
+Proof. exact OracleSoundViews.hist_views. Qed.
+Print Assumptions C04_history_steps_canonical.
